@@ -128,7 +128,7 @@ func propC14(c *ctx) error {
 	}
 	res.Distribution["exhaustive_strings"] = cnt
 	res.Exhaustive = true
-	pool := append(append([]string{}, alpha...), "${", "}}", "\\n", "\\'", "\\\"", "-->", "</script>", " ", "ü", " ", "0", "x41", "\\x41", "\\u00e9", "\\101", "&amp;", "&", "&#39;", "&quot;", ";")
+	pool := append(append([]string{}, alpha...), "${", "}}", "\\n", "\\'", "\\\"", "-->", "</script>", " ", "ü", " ", "0", "x41", "\\x41", "\\u00e9", "\\101", "&amp;", "&", "&#39;", "&quot;", ";", "/*", "*/", "//", "/", "*")
 	n := c.n(150, 6000)
 	for i := 0; i < n; i++ {
 		var sb strings.Builder
@@ -143,7 +143,9 @@ func propC14(c *ctx) error {
 	}
 	// strings that SPELL HTML character references: inside a literal they are just characters (the attribute value is
 	// source text of the expression language, nobody un-escapes it before it is compiled)
-	for _, s := range []string{"&amp;", "&lt;", "&gt;", "&quot;", "&#39;", "&#x60;", "&copy", "&copy;", "Tom &amp; Jerry", "?id=1&copy=2", "&amp;amp;", "&", "a&b;", "&#34;x", "&nbsp;", "&#0;"} {
+	for _, s := range []string{"&amp;", "&lt;", "&gt;", "&quot;", "&#39;", "&#x60;", "&copy", "&copy;", "Tom &amp; Jerry", "?id=1&copy=2", "&amp;amp;", "&", "a&b;", "&#34;x", "&nbsp;", "&#0;",
+		// strings that SPELL comment delimiters of the expression language: inside a literal they are just characters
+		"image/*", "*/*", "src/**/*.go", "/* TODO", "a // b", "*/ x /*", "/*", "*/", "//", "/**/", "http://x/y", "a /* b */ c", "/*/", "*//*", "//\n", "/* \n"} {
 		if err := check(s); err != nil {
 			return err
 		}
